@@ -1,4 +1,5 @@
 import QR.Model.Styled
+import QR.Proofs.Styled
 /-
 C14 - styled images: colour logic on exact pixels and embedded-image geometry.  Antialiased drawers, gradients' float
 rounding and Pillow's paste/resize are validated on real Pillow by the check (partial, see DESIGN.md 6/C14).
@@ -20,5 +21,55 @@ theorem C14_paint_eq_back_iff (r g b : Int) :
   · intro a
     simp [paintColour]
     constructor <;> intro h <;> exact h.symm
+
+/-- **light pixels**: a pixel that is exactly the background colour (every pixel of a light module and of the quiet
+    zone) stays exactly the background colour after `apply_mask`, whenever the paint colour differs from the background
+    in at least one channel (and the foreground pixel has at least as many channels as the background).
+    (`Proofs.Styled.light_pixel_strong` shows `hl` and `hne` are not even needed.) -/
+theorem C14_light (back paint fg : Colour) (hl : back.length = paint.length) (hfg : back.length ≤ fg.length)
+    (hne : paint ≠ back) : applyMaskPixel back paint fg back = back :=
+  Proofs.Styled.light_pixel back paint fg hl hfg hne
+
+/-- **dark pixels, square drawers**: a pixel that is exactly the paint colour (every pixel of a dark module drawn by a
+    square drawer) becomes exactly the foreground pixel `get_fg_pixel(image, x, y)`, whenever paint ≠ background -/
+theorem C14_square_dark (back paint fg : Colour) (hl : back.length = paint.length) (hfg : back.length = fg.length)
+    (hne : paint ≠ back) : applyMaskPixel back paint fg paint = fg :=
+  Proofs.Styled.dark_pixel back paint fg hl hfg hne
+
+/-- **the D4 defect**: when the paint colour equals the background colour (see `C14_paint_eq_back_iff`: black RGB
+    background, or RGBA background with alpha 255) *every* pixel - whatever was drawn - becomes background: the image is
+    blank -/
+theorem C14_paint_equals_back_blank (back paint fg pix : Colour) (h : paint = back) :
+    applyMaskPixel back paint fg pix = back :=
+  Proofs.Styled.paint_eq_back back paint fg pix h
+
+/-- **embedded image geometry** (`draw_embeded_image`, `w = int(total * ratio) ≤ total`): the offset is a whole number
+    of modules; the logo is centred (`offset + side + offset = total`: equal margins, and no truncation in
+    `total - offset*2`); its side is between `w - 1` and `w + 2*box - 1` (both bounds are attained, also when
+    `box ∣ total`, see the examples); and when the image is a whole number of modules wide, so is the logo -/
+theorem C14_logo (total box w : Nat) (hbox : 0 < box) (hw : w ≤ total) :
+    box ∣ (logoGeometry total box w).1 ∧
+    (logoGeometry total box w).1 * 2 + (logoGeometry total box w).2 = total ∧
+    w ≤ (logoGeometry total box w).2 + 1 ∧ (logoGeometry total box w).2 + 1 ≤ w + 2 * box ∧
+    (box ∣ total → box ∣ (logoGeometry total box w).2) :=
+  have h := Proofs.Styled.logo_geometry total box w hbox hw
+  ⟨h.1, h.2.1, h.2.2.1, h.2.2.2, Proofs.Styled.logo_side_dvd total box w⟩
+
+/-- non-vacuity: white background, black paint, dark-blue foreground -/
+example :
+    applyMaskPixel [255, 255, 255] (paintColour [255, 255, 255]) [0, 0, 120] [255, 255, 255] = [255, 255, 255] ∧
+    applyMaskPixel [255, 255, 255] (paintColour [255, 255, 255]) [0, 0, 120] (paintColour [255, 255, 255]) = [0, 0, 120] :=
+  ⟨C14_light _ _ _ rfl (by decide) (by decide), C14_square_dark _ _ _ rfl rfl (by decide)⟩
+
+/-- non-vacuity of the defect: opaque white RGBA background - paint = background, a painted pixel comes out white -/
+example : paintColour [255, 255, 255, 255] = [255, 255, 255, 255] ∧
+    applyMaskPixel [255, 255, 255, 255] (paintColour [255, 255, 255, 255]) [0, 0, 120, 255] [255, 255, 255, 255]
+      = [255, 255, 255, 255] :=
+  ⟨by decide, C14_paint_equals_back_blank _ _ _ _ (by decide)⟩
+
+/-- the logo bounds are tight: side = w - 1 and side = w + 2*box - 1 both occur (here with `box ∣ total`);
+    default-ish case: 33 modules of 10 px, ratio 1/4 -/
+example : logoGeometry 60 6 13 = (24, 12) ∧ logoGeometry 63 7 8 = (21, 21) ∧ logoGeometry 330 10 82 = (120, 90) := by
+  decide
 
 end QR.Props
